@@ -287,6 +287,23 @@ func (vc *VC) noteSort(name, sort string) { vc.sorts["sort:"+name] = sort }
 
 func (fr *Frame) edge(from *ssa.BasicBlock, to *ssa.BasicBlock, reach *Term, st *State, li *loopInfo, in map[*ssa.BasicBlock][]contrib) {
 	fr.edgeReach[[2]int{from.Index, to.Index}] = reach
+	if fr.fc != nil {
+		for _, l := range li.loops {
+			if l.Blocks[from] && !l.Blocks[to] {
+				if ls := fr.loopSpec(l); ls != nil {
+					for i, ex := range ls.Exits {
+						sc := fr.invScope(l, st)
+						t, err := sc.compileBool(ex.Expr)
+						if err != nil {
+							fr.vc.Errors = append(fr.vc.Errors, fmt.Sprintf("loop %d exit assertion %d: %v", l.Ordinal, i+1, err))
+							continue
+						}
+						fr.vc.oblige(fmt.Sprintf("exit%d", l.Ordinal), clauseLabel(ex, i), reach, t, l.Pos, ex.Src, ex.Props, "")
+					}
+				}
+			}
+		}
+	}
 	if li.backEdge[[2]int{from.Index, to.Index}] {
 		fr.loopBack(li.loops[to], reach, st)
 		return
